@@ -543,14 +543,18 @@ def section_implicit():
 
 
 if __name__ == "__main__":
-    for name in sections:
-        fn = globals().get("section_" + name)
-        if fn is None:
-            continue
-        try:
-            fn()
-        except Exception:
-            import traceback
-            fail(name, "battery section crashed", error=traceback.format_exc()[-1500:])
+    for off in B.OFFSETS:
+        B.OFF = off
+        for name in sections:
+            fn = globals().get("section_" + name)
+            if fn is None:
+                continue
+            if off and name in ("implicit",):
+                continue
+            try:
+                fn()
+            except Exception:
+                import traceback
+                fail(name, "battery section crashed", error=traceback.format_exc()[-1500:], seed_offset=off)
     print(json.dumps({"cases": cases, "failures": failures}))
     sys.exit(1 if failures else 0)
